@@ -32,12 +32,12 @@ CHECKS = {
             "Real replicas run a chaos prefix (loss, duplication, reordering, timer firings, up to f crashed replicas), then a live quorum of honest replicas is scheduled "
             "synchronously (all messages among it before any of its timers, later views led by its members; round-robin, fixed and scripted leaders; n in {4,7}); TLC checks "
             "that every member has committed a new block once it is 3*(ChainLength+1) views beyond the heal, and in fault-free synchronous runs that nobody times out, every "
-            "view adds a block on the previous view's block and commits trail the proposal by exactly ChainLength. Fast-HotStuff fails (known finding, see DESIGN 7/D11). Scenario batches: a leader cut off in every other view of a stretch it leads that then falls silent; a lagging leader-to-be."
+            "view adds a block on the previous view's block and commits trail the proposal by exactly ChainLength. Fast-HotStuff fails (known finding, see DESIGN 7/D11). Scenario batches: a leader cut off in every other view of a stretch it leads that then falls silent; a lagging leader-to-be; clients with a small window that fall silent and return (a proposer without commands waits for its view timer). Progress is a sliding window: no member goes 3*(ChainLength+1) views (or twice as many timer expiries) without committing."
             " Pass B: every step of the runs without Byzantine action is also replayed through the deterministic replica model spec/HotStuff.tla (Trace_R.tla) -- post-state, signatures, commits, view changes and every message sent must be exactly what the model computes (drift is reported as a warning).",
             "Commands are always available; the bound is measured on the stepping member's view.", "DESIGN.md section 6, C05"),
     "C06": ("model_checking",
             "TLC evaluates the property formulas of spec/Trace_P.tla on every step of recorded executions of real replicas under an adversarial scheduler (trace validation, Pass A)",
-            "Real ClientIO and CommandCache run in every replica with a waiting client registered for every command; TLC checks execute-event order against the committed chain, the exactly-once count, digest equality at equal counts across replicas, prefix-related executed sequences and at-most-one / success-implies-executed outcomes."
+            "Real ClientIO and CommandCache run in every replica; client requests go through the real ExecCommand handler (and a registration shortcut), late arrivals included; TLC checks execute-event order against the committed chain, the exactly-once count, digest equality at equal counts across replicas, prefix-related executed sequences and at-most-one / success-implies-executed outcomes."
             " TLC-generated scripts (spec/generated/scripts.ndjson: behaviours of HotStuffAbs that violate Agreement when one rule is weakened, and behaviours of the correct model) are played against real replicas by a Byzantine leader (hsverif attack) and judged the same way. Pass B: every step of the runs without Byzantine action is also replayed through the deterministic replica model spec/HotStuff.tla (Trace_R.tla) -- post-state, signatures, commits, view changes and every message sent must be exactly what the model computes (drift is reported as a warning).",
             "Byzantine keys count as having signed everything; one scheduler step = one delivery run to quiescence.", "DESIGN.md section 6, C06"),
     "C07": ("model_checking",
